@@ -2,6 +2,78 @@ use super::*;
 
 const MAX_RECURSION_DEPTH: usize = 64;
 
+/// Maximum nesting of `{`, `[` and `(` in a document. The generated parser
+/// recurses once per nesting level (selection sets, list and object values,
+/// list types), so without a bound a document of a few kilobytes exhausts the
+/// stack before `MAX_RECURSION_DEPTH` is ever looked at.
+const MAX_NESTING_DEPTH: usize = 256;
+
+/// Reject documents nested deeper than `MAX_NESTING_DEPTH`, looking only at
+/// the brackets outside strings and comments. Never counts fewer levels than
+/// the parser would follow: after a block string that is not closed (which
+/// the grammar then reads as the empty string `""`) every bracket counts.
+fn check_nesting_depth(input: &str) -> Result<()> {
+    let bytes = input.as_bytes();
+    let mut lexical = true;
+    let mut depth = 0usize;
+    let mut i = 0;
+    while i < bytes.len() {
+        match bytes[i] {
+            b'#' if lexical => {
+                while i < bytes.len() && bytes[i] != b'\n' && bytes[i] != b'\r' {
+                    i += 1;
+                }
+                continue;
+            }
+            b'"' if lexical && bytes[i..].starts_with(b"\"\"\"") => {
+                let start = i;
+                let mut closed = false;
+                i += 3;
+                while i < bytes.len() {
+                    if bytes[i..].starts_with(b"\\\"\"\"") {
+                        i += 4;
+                    } else if bytes[i..].starts_with(b"\"\"\"") {
+                        i += 3;
+                        closed = true;
+                        break;
+                    } else {
+                        i += 1;
+                    }
+                }
+                if !closed {
+                    lexical = false;
+                    i = start + 3;
+                }
+                continue;
+            }
+            b'"' if lexical => {
+                i += 1;
+                while i < bytes.len() {
+                    match bytes[i] {
+                        b'\\' => i += 2,
+                        b'"' | b'\n' | b'\r' => {
+                            i += 1;
+                            break;
+                        }
+                        _ => i += 1,
+                    }
+                }
+                continue;
+            }
+            b'{' | b'[' | b'(' => {
+                depth += 1;
+                if depth > MAX_NESTING_DEPTH {
+                    return Err(Error::RecursionLimitExceeded);
+                }
+            }
+            b'}' | b']' | b')' => depth = depth.saturating_sub(1),
+            _ => {}
+        }
+        i += 1;
+    }
+    Ok(())
+}
+
 macro_rules! recursion_depth {
     ($remaining_depth:ident) => {{
         if $remaining_depth == 0 {
@@ -19,6 +91,7 @@ macro_rules! recursion_depth {
 pub fn parse_query<T: AsRef<str>>(input: T) -> Result<ExecutableDocument> {
     let mut pc = PositionCalculator::new(input.as_ref());
 
+    check_nesting_depth(input.as_ref())?;
     let pairs = GraphQLParser::parse(Rule::executable_document, input.as_ref())
         .map_err(|err| Error::from_pest(err, input.as_ref()))?;
     let items = parse_definition_items(exactly_one(pairs), &mut pc)?;
